@@ -50,16 +50,17 @@ def run(tier):
                       "coordinates stay within +-16000 units (no 32-bit wrap-around); blend / vsindex are evaluated without blend state", "deadline 20 s per driven font, 5 s per model case"]
     wd = vlib.workdir(PID)
     vlib.stage_specs(wd, "vm", "common")
-    cfg = "HintVMMC_quick.cfg" if tier == "quick" else "HintVMMC_thorough.cfg"
-    r = vlib.run_tlc(wd, "HintVMMC", cfg=cfg, workers=12, timeout=3400, xmx="16g")
-    ck.add_tlc("tlc:HintVM", r)
-    if not r.ok:
-        ck.spec_error("HintVMMC", r)
-    t1 = os.path.join(wd, "vm.ndjson")
-    res = vlib.run_harness("fv-total", ["c02", "vm", "--programs", r.out, "--out", t1], timeout=3000)
-    ck.add_harness("replay:vm", res, traces=False)
-    os.remove(r.out)
-    validate(ck, wd, "vm", t1)
+    for mod, cfg in ([("HintVMMC", "HintVMMC_quick.cfg")] if tier == "quick" else [("HintVMMC", "HintVMMC_quick.cfg"), ("HintVMMCT", "HintVMMCT_thorough.cfg"), ("HintVMMCT", "HintVMMCT_thoroughb.cfg")]):
+        name = cfg.split("_", 1)[1][:-4]
+        r = vlib.run_tlc(wd, mod, cfg=cfg, workers=12, timeout=3400, xmx="16g", out_name="vm_%s.out" % name)
+        ck.add_tlc("tlc:HintVM:" + name, r)
+        if not r.ok:
+            ck.spec_error("HintVMMC", r)
+        t1 = os.path.join(wd, "vm_%s.ndjson" % name)
+        res = vlib.run_harness("fv-total", ["c02", "vm", "--programs", r.out, "--out", t1], timeout=3000)
+        ck.add_harness("replay:vm:" + name, res, traces=False)
+        os.remove(r.out)
+        validate(ck, wd, "vm:" + name, t1)
     r = vlib.run_tlc(wd, "CompositeMC", cfg="CompositeMC_scaled.cfg", workers=4, timeout=1200)
     ck.add_tlc("tlc:Composite:scaled", r)
     if not r.ok:
